@@ -26,7 +26,7 @@ def cases(tier, rng, run):
         if i % 3 == 0:
             out.append(Case(c.ctx_line(), "ctx", {"ctx": c}))
         kind = "method" if rng.random() < 0.2 else "func"
-        style = rng.choice(["pos", "kw", "mixed", "fwd", "kwonly", "posonly"] + (["kwself", "kwself"] if kind == "method" else []))
+        style = rng.choice(["pos", "kw", "kwrev", "mixed", "fwd", "kwonly", "posonly"] + (["kwself", "kwself"] if kind == "method" else []))
         line = c.call_line(kind, style, prov=(("self" if c.scope else "-") if kind == "method" else None))
         r = rng.random()
         if r < 0.3:
